@@ -158,6 +158,12 @@ def run(ctx):
     tr2 = ctx.drive(drive, ["--seed", str(ctx.seed), "--n", str(n), "--len", "16", "--max-words", "24", "--lite"], "trace-rnd.ndjson")
     monitor_all(ctx, "mon-rnd", tr2, cfg, totals)
     os.remove(tr2)
+    # the same random source in the optimised build: debug assertions are compiled out there, so an access the
+    # assertions would have stopped reaches the allocation (red zones, sizes and identities are recorded as before)
+    rel = fw.build("release", "c17")
+    tr3 = ctx.drive(rel, ["--seed", str(ctx.seed + 11), "--n", str(ctx.pick(1500, 20000)), "--len", "16", "--max-words", "24", "--lite"], "trace-rnd-release.ndjson")
+    monitor_all(ctx, "mon-rnd-release", tr3, cfg, totals)
+    os.remove(tr3)
     # the same generated histories under Miri (every k-th case, spread over the whole file)
     nm = ctx.pick(45, 450)
     lines = [l for l in open(cases) if l.strip()]
